@@ -441,6 +441,151 @@ class ClientH(Harness):
 
 
 # ------------------------------------------------------------------ real OS objects (free running, in the master process)
+# ------------------------------------------------------------------ named pipe: every short history on real FIFOs
+class PipeHistH(Harness):
+    """Named-pipe transport: EVERY history of at most `depth` operations over {create server end, create client end, send,
+    recv, close} on REAL FIFOs in a fresh directory, against a reference model (one list per direction).  Each history runs in
+    a forked child with a watchdog, because a wrong implementation blocks in open()/read() and cannot be interrupted.
+    Legal (enabled) operations: an end is created once, before its other operations; recv only when the model has an object
+    for it (it must then arrive, intact and next in order) or when the peer has closed, while this end existed, with nothing
+    left (EOFError); an end
+    may close with objects still undelivered only if the receiving end already exists (otherwise the kernel has nobody to
+    keep them for - not the library's business)."""
+    name = 'pipe_histories'
+    kind = 'cases'
+
+    def setup(self):
+        return []
+
+    def configs(self, tier):
+        return [dict(depth=7 if tier == 'quick' else 9)]
+
+    PAYLOADS = [b'a\nb', {'k': [1, None]}]
+
+    def cases(self, cfg):
+        out = []
+
+        def rec(hist, st):
+            if hist:
+                out.append(list(hist))
+            if len(hist) >= cfg['depth']:
+                return
+            for side, peer in (('S', 'C'), ('C', 'S')):
+                me = st[side]
+                if me['state'] == 'new':
+                    st2 = _copy(st)
+                    st2[side]['state'] = 'open'
+                    rec(hist + [[side, 'init']], st2)
+                    continue
+                if me['state'] != 'open':
+                    continue
+                if me['sent'] < 2:
+                    st2 = _copy(st)
+                    st2[side]['sent'] += 1
+                    st2[side]['outbox'].append(me['sent'] % 2)
+                    rec(hist + [[side, 'send', me['sent'] % 2]], st2)
+                inbox = st[peer]['outbox']
+                if inbox:
+                    st2 = _copy(st)
+                    x = st2[peer]['outbox'].pop(0)
+                    rec(hist + [[side, 'recv', x]], st2)
+                elif me['eof_due'] and not me['saw_eof']:
+                    st2 = _copy(st)
+                    st2[side]['saw_eof'] = True
+                    rec(hist + [[side, 'recv', 'EOF']], st2)
+                if not me['outbox'] or st[peer]['state'] != 'new':
+                    st2 = _copy(st)
+                    st2[side]['state'] = 'closed'
+                    if st2[peer]['state'] == 'open':
+                        # the peer exists and will see the end of the stream (a peer created later cannot tell "gone" from
+                        # "not there yet" and rightly waits)
+                        st2[peer]['eof_due'] = True
+                    rec(hist + [[side, 'close']], st2)
+
+        def _copy(st):
+            return {k: dict(v, outbox=list(v['outbox'])) for k, v in st.items()}
+
+        rec([], {k: dict(state='new', sent=0, outbox=[], saw_eof=False, eof_due=False) for k in 'SC'})
+        return out
+
+    def run_case(self, cfg, case):
+        import os
+        import pickle
+        import select
+        import shutil
+        import tempfile
+        d = tempfile.mkdtemp(prefix='c18hist_')
+        r, w = os.pipe()
+        pid = os.fork()
+        if pid == 0:
+            # child: run the history on real FIFOs, report the first deviation
+            try:
+                os.close(r)
+                from mpservice.pipe import Client, Server
+                ends = {}
+                verdict = None
+                for i, op in enumerate(case):
+                    side = op[0]
+                    os.write(w, b'.')          # progress mark (the parent reports the operation that blocks)
+                    if op[1] == 'init':
+                        ends[side] = (Server if side == 'S' else Client)(os.path.join(d, 'p'))
+                    elif op[1] == 'send':
+                        ends[side].send(self.PAYLOADS[op[2]])
+                    elif op[1] == 'close':
+                        e = ends.pop(side)
+                        e._writer.close()
+                        if e._reader is not None:
+                            e._reader.close()
+                        del e
+                    else:
+                        try:
+                            got = ('value', ends[side].recv())
+                        except EOFError:
+                            got = ('EOF',)
+                        want = ('EOF',) if op[2] == 'EOF' else ('value', self.PAYLOADS[op[2]])
+                        if got != want:
+                            verdict = (i, f'recv gave {got!r}, the reference {want!r}')
+                            break
+                os.write(w, b'!' + pickle.dumps(verdict))
+            finally:
+                os._exit(0)
+        os.close(w)
+        buf = b''
+        hung = False
+        while True:
+            ready, _, _ = select.select([r], [], [], 5.0)
+            if not ready:
+                hung = True
+                break
+            chunk = os.read(r, 65536)
+            if not chunk:
+                break
+            buf += chunk
+            if b'!' in buf:
+                break
+        if hung:
+            try:
+                os.kill(pid, 9)
+            except OSError:
+                pass
+        os.waitpid(pid, 0)
+        os.close(r)
+        shutil.rmtree(d, ignore_errors=True)
+        label = ' '.join(''.join(map(str, o)) for o in case)
+        if hung:
+            k = buf.count(b'.') - 1
+            op = case[k] if 0 <= k < len(case) else None
+            return ('hang', (f'pipe-operation-blocks:{op[1] if op else "?"}',
+                             f'history {case}: operation {k} {op} did not return within 5 s (the object was sent, or the peer has '
+                             'closed, so it must return)'), True)
+        if b'!' not in buf:
+            return ('crash', ('pipe-history-crashed', f'history {case}: the child ended without a verdict'), True)
+        verdict = pickle.loads(buf[buf.index(b'!') + 1:])
+        if verdict is not None:
+            return ('wrong', ('pipe-wrong-delivery', f'history {case}: step {verdict[0]}: {verdict[1]}'), True)
+        return ('ok', None, len(case) > 2)
+
+
 def twins(tier, pool, stats):
     import os
     import subprocess
@@ -465,8 +610,8 @@ def twins(tier, pool, stats):
     return n_ok
 
 
-HARNESSES = {'framing': FramingH, 'server': ServerH, 'client': ClientH}
-PLAN = {'quick': ['framing', 'server', 'client'], 'thorough': ['framing', 'server', 'client']}
+HARNESSES = {'pipe_histories': PipeHistH, 'framing': FramingH, 'server': ServerH, 'client': ClientH}
+PLAN = {'quick': ['framing', 'server', 'client', 'pipe_histories'], 'thorough': ['framing', 'server', 'client', 'pipe_histories']}
 RULE = ('framing/server: complete enumeration of chunkings x gap vectors / duration vectors x failing handler x backlog on a '
         'virtual event loop; client: delay-bounded schedule exploration; non-trivial = at least one cut / unequal durations / '
         'a non-default scheduling decision')
